@@ -46,13 +46,33 @@ def rule_update_table(ctx):
         if cur == 0:
             case, want = "no-current", True
         elif cur == 1:
-            rel = None
+            # relations between the two records' timestamps: whole values (HybridTimestamp's lexicographic order) or
+            # the components of to_parts() — (.0 wall clock, .1 logical counter) — compared lexicographically
+            flip = {"<": ">", ">": "<", "=": "=", "!=": "!="}
+            comp = {}
             for (x, y), r in lf.rel.items():
                 if TS in x and TS in y:
                     o_first = "other" in x and "self.transports" not in x
-                    rel = r if o_first else {"<": ">", ">": "<", "=": "=", "!=": "!="}[r]
-            case = {"<": "older", "=": "same-timestamp", ">": "newer", None: "uncompared", "!=": "differs"}[rel]
-            want = rel == ">"
+                    r2 = r if o_first else flip[r]
+                    sx, sy = x.rsplit(")", 1)[-1], y.rsplit(")", 1)[-1]
+                    kind = {"": "whole", ".0": "time", ".1": "logical"}.get(sx) if sx == sy else None
+                    comp[kind or "unknown:%s/%s" % (sx, sy)] = r2
+            if "whole" in comp and len(comp) == 1:
+                rel = comp["whole"]
+            elif comp and set(comp) <= {"time", "logical"} and "time" in comp:
+                rt, rl = comp["time"], comp.get("logical")
+                rel = ">" if rt == ">" or (rt == "=" and rl == ">") else ("<" if rt == "<" or (rt == "=" and rl == "<") else
+                                                                         ("=" if rt == "=" and rl == "=" else None))
+                if rt == "=" and rl is None:
+                    rel = "undecided-tie"
+            elif not comp:
+                rel = None
+            else:
+                rel = "unknown"
+            case = {"<": "older", "=": "same-timestamp", ">": "newer", None: "uncompared", "!=": "differs"}.get(rel, str(rel))
+            if comp and "whole" not in comp:
+                case += "[%s]" % ",".join("%s%s" % (k, v) for k, v in sorted(comp.items()))
+            want = (rel == ">") if rel in ("<", "=", ">") else None
         else:
             case, want = "current-unexamined", None
         rows[case] = assigned
@@ -62,7 +82,8 @@ def rule_update_table(ctx):
                "timestamp is strictly newer, and report exactly that" % (case, "replaced" if assigned else "kept", lf.ret.expr()),
                site=b.loc(), key="C27.1:row:" + case)
     for need in ("verify-failed", "no-current", "older", "same-timestamp", "newer"):
-        ctx.ob("C27.1", "row present:" + need, need in rows, "rows %s" % sorted(rows), site=b.loc(), trivial=True)
+        ctx.ob("C27.1", "row present:" + need, any(r == need or r.startswith(need + "[") for r in rows), "rows %s" % sorted(rows),
+               site=b.loc(), trivial=True)
     ctx.sample({"update_transports table (record replaced?)": rows})
 
 
